@@ -21,7 +21,7 @@ def run(tier):
                       "thread from an odd address (same digest required) and drives the lookup helpers / glyph loading of the "
                       "damaged font on every 8th. CmapIter.tla (clamping rule of the cmap 4 / 12 iterators: strictly ascending yields for every "
                       "list of <= 3 overlapping / contained / descending groups) and PackedHostile.tla (every packed-delta stream of "
-                      "<= 3 control/data bytes behind private point lists) enumerate hostile inputs for two hand-written decoders, ContextClosure.tla ((chained) sequence context lookups in all three formats whose lookup records carry any sequence index incl. beyond the rule's input, and range coverage tables with start coverage indices at the top of the 16-bit range; compiled with write-fonts, closed over / queried by read-fonts, the closure compared with the model's exact .. over-approximated range) and Index.tla (the CFF INDEX reader: every small count x offset size x offset array incl. backwards / zero / out-of-data offsets, complete and cut short, with the answers for get(0..count+1)) for a third; "
+                      "<= 3 control/data bytes behind private point lists) enumerate hostile inputs for two hand-written decoders, ContextClosure.tla ((chained) sequence context lookups in all three formats whose lookup records carry any sequence index incl. beyond the rule's input, and range coverage tables with start coverage indices at the top of the 16-bit range; compiled with write-fonts, closed over / queried by read-fonts, the closure compared with the model's exact .. over-approximated range) SimpleGlyph.tla (simple glyph point data: the OpenType reading and read_points_fast as written - total, runs never beyond the last point, equal where the former is defined), CompositeGlyph.tla (component records: the full and the fast iterator - the full list is a prefix of the fast one, at most one record shorter, equal on complete data) and Index.tla (the CFF INDEX reader: every small count x offset size x offset array incl. backwards / zero / out-of-data offsets, complete and cut short, with the answers for get(0..count+1)) for a third; "
                       "the raw tables are iterated by the real code under a deadline.")
     ck.assumptions = ["tables are exercised through the instances that occur in the corpus (evidence: tables_seen); CFF/CFF2 have "
                       "no traversal impl and are reached through glyph loading only",
@@ -118,6 +118,22 @@ def run(tier):
         ck.cov["traces_validated_against_impl"] += info.get("events", 0)
     else:
         ck.violation("ReadTrace rejected a simple glyph observation: %s" % info.get("rejected", "")[:1200], {"kind": "read-trace", "trace": t7})
+    # composite glyph component records: CompositeGlyph.tla's full and fast readings, every member through components(),
+    # component_glyphs_and_flags() and count_and_instructions()
+    r = vlib.run_tlc(wd, "CompositeGlyphMC", cfg="CompositeGlyphMC_%s.cfg" % tier, workers=4, timeout=1800, xmx="8g", out_name="compositeglyph.out")
+    ck.add_tlc("tlc:CompositeGlyph", r)
+    if not r.ok:
+        ck.spec_error("CompositeGlyphMC", r)
+    t8 = os.path.join(wd, "compositeglyph.ndjson")
+    res = vlib.run_harness("fv-total", ["c01", "compositeglyph", "--cases", r.out, "--trace-every", 2 if tier == "quick" else 40, "--out", t8])
+    ck.add_harness("replay:compositeglyph", res, traces=False)
+    os.remove(r.out)
+    ok, info = vlib.validate_trace(wd, "ReadTrace", t8, timeout=1800)
+    ck.cov["parts"]["validate:compositeglyph"] = info
+    if ok:
+        ck.cov["traces_validated_against_impl"] += info.get("events", 0)
+    else:
+        ck.violation("ReadTrace rejected a composite glyph observation: %s" % info.get("rejected", "")[:1200], {"kind": "read-trace", "trace": t8})
     # the CFF INDEX reader (hand-written offset arithmetic): Index.tla's hostile byte strings and answers
     vlib.stage_specs(wd, "cff")
     r = vlib.run_tlc(wd, "IndexMC", cfg="IndexMC.cfg", workers=4, timeout=900)
